@@ -126,3 +126,23 @@ Print Assumptions C16_each_interaction_once_refuted.
 Theorem C16_each_interaction_once_refuted_vcr : exists h, delivered h = [1; 2; 3] /\ written vcr_default h = ([(1, true); (2, false)], Died).
 Proof. exists [CScenario [i_plain 1; i_bogus 2; i_plain 3]]. exact once_refuted_vcr. Qed.
 Print Assumptions C16_each_interaction_once_refuted_vcr.
+
+(* ---- entries are a function of one interaction ------------------------------------ *)
+(* the writer loops carry Python locals (post_data, response, headers, checks, status) from one
+   iteration to the next; whatever their values, the list of entries is the pointwise image of
+   the delivered interactions *)
+Theorem C16_entries_are_pointwise : forall preserve hv vv xs,
+  har_loop preserve hv xs = map (har_entry preserve) xs /\ vcr_loop preserve vv xs = map (vcr_entry preserve) xs.
+Proof. exact entries_pointwise. Qed.
+Print Assumptions C16_entries_are_pointwise.
+
+Theorem C16_entry_independent_of_history : forall preserve hv vv pre x post,
+  nth_error (har_loop preserve hv (pre ++ x :: post)) (length pre) = Some (har_entry preserve x)
+  /\ nth_error (vcr_loop preserve vv (pre ++ x :: post)) (length pre) = Some (vcr_entry preserve x).
+Proof. exact entry_independent_of_history. Qed.
+Print Assumptions C16_entry_independent_of_history.
+
+Theorem C16_bodyless_request_has_no_body : forall preserve x, q_body (x_req x) = None ->
+  he_post (har_entry preserve x) = None /\ ve_body (vcr_entry preserve x) = None.
+Proof. exact bodyless_has_no_post. Qed.
+Print Assumptions C16_bodyless_request_has_no_body.
